@@ -1013,12 +1013,11 @@ impl EncryptedEntry for Vault {
         commit: CommitHash,
         secret: VaultEntry,
     ) -> Result<WriteEvent> {
-        let value = self
-            .contents
-            .data
-            .entry(id)
-            .or_insert(VaultCommit(commit, secret));
-        Ok(WriteEvent::CreateSecret(id, value.clone()))
+        // Last write wins when the identifier already exists
+        // which is the same as the storage mirrors
+        let value = VaultCommit(commit, secret);
+        self.contents.data.insert(id, value.clone());
+        Ok(WriteEvent::CreateSecret(id, value))
     }
 
     async fn read_secret<'a>(
